@@ -56,6 +56,9 @@ PRELUDES = [
     ("include", "#include <math.h>\n"),
     ("nonascii", "/* préambule — 前文 \U0001f600 */\nstatic int helper(int x) { return x + 1; }\n"),
     ("nonl_pct", "static const char *s = \"a\\tb%d%%s\\\\\";\t/* 100% {0} no newline at end */"),
+    # the text starts with U+FEFF: it is a character of the prelude like any other (the input file then starts
+    # with the bytes EF BB BF, which the tool must not take for an encoding signature)
+    ("bom_first", "\ufeff/* starts with U+FEFF */\nstatic int after_bom;\n"),
 ]
 NAMES = ["m", "pkg.m"]
 NAMES_THOROUGH = ["m", "pkg.m", "a.b.c_d9", "_x"]
@@ -70,7 +73,8 @@ PRELUDES_THOROUGH_EXTRA = [
 MODES = ["read", "exec-direct", "exec-direct-ffivar", "exec-callable", "exec-callable-ffivar"]
 INVOCATIONS = ["script", "module"]
 OUTS = ["file", "stdout"]
-ENVS = ["inherit", "ascii-locale"]
+HASHSEEDS = [1, 2, 3, 4, 5, 6]
+ENVS = ["inherit", "ascii-locale"] + ["hashseed-%d" % k for k in HASHSEEDS]
 
 ASCII_ENV = {"LC_ALL": "C", "LANG": "C", "PYTHONCOERCECLOCALE": "0", "PYTHONUTF8": "0"}
 
@@ -175,6 +179,10 @@ def child_environment(envname, pycache):
         for k in ("LC_ALL", "LC_CTYPE", "LANG", "LANGUAGE", "PYTHONIOENCODING", "PYTHONUTF8", "PYTHONCOERCECLOCALE"):
             env.pop(k, None)
         env.update(ASCII_ENV)
+    if envname.startswith("hashseed-"):
+        # the statement is not parametrised by the string-hash seed of the tool's process either: the bytes
+        # must equal what emit_c_code() writes in THIS process (whose seed is another one)
+        env["PYTHONHASHSEED"] = envname.split("-")[1]
     return env
 
 
@@ -398,7 +406,7 @@ def enumerate_cases(ctx, cdefs, preludes, names):
     pidx = {c[0]: i for i, c in enumerate(preludes)}
     if ctx.quick:
         sub_c = [cidx["func"]]
-        sub_p = [pidx["nonascii"], pidx["nonl_pct"]]
+        sub_p = [pidx["nonascii"], pidx["nonl_pct"], pidx["bom_first"]]
         sub_n = names[1:2]
     else:
         sub_c = [cidx[k] for k in ("func", "struct", "nonascii", "nonl_tabs") if k in cidx]
@@ -408,6 +416,12 @@ def enumerate_cases(ctx, cdefs, preludes, names):
     for ci, pi, name, mode, inv, out in itertools.product([cidx["func"]], [pidx["include"], pidx["nonascii"]],
                                                           names[:1], MODES, INVOCATIONS, OUTS):
         cases.append(("subprocess", ci, pi, name, mode, inv, out, "ascii-locale"))
+    # other string-hash seeds in the tool's process: cdefs with pointer arguments, structs and enums (whatever the
+    # generator keeps in sets or dicts keyed by strings), invocation alternating with the seed
+    seed_c = [cidx[k] for k in (("nonascii", "enum_cb") if ctx.quick else ("nonascii", "enum_cb", "struct", "nonl_tabs"))
+              if k in cidx]
+    for ci, mode, k in itertools.product(seed_c, ["read", "exec-direct"], HASHSEEDS):
+        cases.append(("subprocess", ci, pidx["include"], names[0], mode, INVOCATIONS[k % 2], "file", "hashseed-%d" % k))
     return cases
 
 
@@ -415,7 +429,7 @@ def sig_of(case, v, cdefs, preludes):
     route, ci, pi, name, mode, inv, out, envname = case
     nonascii = not (is_ascii(cdefs[ci][1]) and is_ascii(preludes[pi][1]))
     return {"kind": "+".join(v["kinds"]), "diff": v.get("diff"), "exception": v.get("exception"), "out": out,
-            "env": envname, "route": route,
+            "env": envname.split("-")[0] if envname.startswith("hashseed-") else envname, "route": route,
             "nonascii_input": nonascii, "mode": "read-sources" if mode == "read" else "exec-python"}
 
 
